@@ -35,6 +35,31 @@ def c04_cases(rng, tier):
     for p in refs.ED_SMALL_ORDER:
         for q in refs.ED_SMALL_ORDER:
             cs.append(Case("verify %s %s %s" % (hx(p), hx(b"m"), hx(q + bytes(32))), cls="verify/small-order", expect="err"))
+    cs += scalar_boundary_cases(rng)
+    return cs
+
+
+def scalar_boundary_cases(rng):
+    """the scalar half S of a signature at the boundaries of its range: exactly the group order L, L ± 1, 0, 1, 2L, 2^252, 2^253 − 1,
+    2^255, 2^256 − 1, and values that agree with L in all but the lowest / highest byte — under honest and arbitrary R and key"""
+    cs = []
+    L = refs.ED_L
+    vals = [0, 1, L - 1, L, L + 1, 2 * L, 2 * L - 1, 8 * L, 1 << 252, (1 << 252) + 1, (1 << 253) - 1, 1 << 255, (1 << 256) - 1]
+    Lb = bytearray(L.to_bytes(32, "little"))
+    for pos in (0, 1, 15, 16, 30, 31):
+        for d in (1, 0xff):
+            t = bytearray(Lb); t[pos] = (t[pos] + d) & 0xff
+            vals.append(int.from_bytes(bytes(t), "little"))
+    for i, S in enumerate(vals):
+        seed, pk, sk = keypair(rng)
+        msg = rbytes(rng, i % 7)
+        sig = refs.ed_sign(seed, msg)
+        Sb = S.to_bytes(32, "little")
+        exp = None if S < L else "err"
+        for R in (sig[:32], rbytes(rng, 32), refs.ED_SMALL_ORDER[0]):
+            cs.append(Case("verify %s %s %s" % (hx(pk), hx(msg), hx(R + Sb)), cls="verify/S-boundary", expect=(exp or (lambda a: a in ("ok", "err"))), meta={"why": "S = %d" % S}))
+            cs.append(Case("verify_ph %s %s %s" % (hx(pk), hx(R + Sb), hx(msg)), cls="verify_ph/S-boundary", expect=(exp or (lambda a: a in ("ok", "err")))))
+            cs.append(Case("sign_open %s %s" % (hx(pk), hx(R + Sb + msg)), cls="sign_open/S-boundary", expect=(exp or (lambda a: a.startswith(("ok", "err"))))))
     return cs
 
 
